@@ -95,3 +95,16 @@ Qed.
 
 Lemma wrap_inj a b x y : (a ++ x ++ b = a ++ y ++ b)%string -> x = y.
 Proof. intros H. apply append_inv_head in H. eapply append_inv_tail; eauto. Qed.
+
+(* decimal printing of counters is injective *)
+From Coq Require Import DecimalString DecimalN DecimalPos.
+Lemma N_to_uint_nonnil n : N.to_uint n <> Decimal.Nil.
+Proof. destruct n; cbn; [discriminate | apply DecimalPos.Unsigned.to_uint_nonnil]. Qed.
+Lemma string_of_Z_inj a b : 0 <= a -> 0 <= b -> string_of_Z a = string_of_Z b -> a = b.
+Proof.
+  unfold string_of_Z. intros Ha Hb H.
+  assert (E : Some (N.to_uint (Z.to_N a)) = Some (N.to_uint (Z.to_N b))).
+  { rewrite <- (NilZero.usu _ (N_to_uint_nonnil (Z.to_N a))), <- (NilZero.usu _ (N_to_uint_nonnil (Z.to_N b))). rewrite H. reflexivity. }
+  inversion E as [E1]. apply (f_equal N.of_uint) in E1. rewrite !DecimalN.Unsigned.of_to in E1.
+  apply (f_equal Z.of_N) in E1. rewrite !Z2N.id in E1 by lia. exact E1.
+Qed.
